@@ -166,6 +166,34 @@ func (g *vStoreWorld) step(a map[string]interface{}) (out map[string]interface{}
 				out["note"] = "name " + name + " not deleted"
 			}
 		}
+	case "save_fault":
+		// the pk-th storage operation of this save fails (begin, prepare, the statement, commit): a save that says it
+		// worked has stored the profile
+		g.ver[u]++
+		v := g.ver[u]
+		g.prim.reset()
+		g.prim.mu.Lock()
+		g.prim.failAt = vInt(a, "pk")
+		g.prim.mu.Unlock()
+		err := st.SaveUserProfile(u, g.profile(u, v))
+		g.prim.mu.Lock()
+		ops := g.prim.count
+		g.prim.failAt = 0
+		g.prim.mu.Unlock()
+		out["ok"] = err == nil
+		out["wrote"] = v
+		out["note"] = fmt.Sprintf("primops=%d", ops)
+		p, ok, fromCache, lerr := st.LoadUserProfile(u)
+		if lerr == nil && ok && !fromCache {
+			out["readback"] = vVersionOf(vGobOf(p))
+		} else if lerr == nil && !ok {
+			out["readback"] = 0
+		} else {
+			out["readback"] = -1
+		}
+		if rb, _ := out["readback"].(int); rb != v {
+			g.ver[u] = v - 1
+		}
 	case "delete":
 		vMust(st.DeleteUserProfile(u))
 		_, ok, _, _ := st.LoadUserProfile(u)
